@@ -233,6 +233,11 @@ def rule_networkx(chk: Check, model: Model, rid: str):
     chk.add(rid, "stateful and message edges are both added", len(edges) == 2, f"{len(edges)} add_edge site(s) in to_networkx_graph, expected 2 (stateful edges and message edges)", chk.loc(fi))
     if len(edges) != 2:
         return
+    # every vertex / message is visited: the loops that add nodes and edges have no early exit
+    for what, e in (("vertices", nodes[0]), ("message edges", [x for x in edges if dict(x.kwargs)][0] if [x for x in edges if dict(x.kwargs)] else edges[-1])):
+        brk = [(g, st) for lid in e.loops for g, st in ev.loop_breaks.get(lid, [])]
+        chk.add(rid, f"all {what} are visited (no early exit)", not brk, f"the loop over the {what} can `break` under {T.show(brk[0][0])[:120] if brk else None}: later entries "
+                "(e.g. messages after an unreceived one) would silently be dropped", chk.loc(fi, brk[0][1] if brk else e.node))
     n = nodes[0]
     el = [x for x in T.walk(n.guard) if x[0] == "index" and x[1][0] == "elem" and T.const_value(x[2]) == 0]
     seq = el[0] if el else None
